@@ -285,6 +285,30 @@ public:
         J.attribute("argty", typeStr(OE->getTypeSourceInfo()->getType()));
       } else if (auto *AS = dyn_cast<GCCAsmStmt>(S)) {
         J.attribute("str", AS->getAsmString()->getString());
+      } else if (auto *AE = dyn_cast<AtomicExpr>(S)) {
+        const char *k = "other";
+        switch (AE->getOp()) {
+        case AtomicExpr::AO__c11_atomic_load:
+        case AtomicExpr::AO__atomic_load_n:
+        case AtomicExpr::AO__atomic_load:
+          k = "load";
+          break;
+        case AtomicExpr::AO__c11_atomic_store:
+        case AtomicExpr::AO__atomic_store_n:
+        case AtomicExpr::AO__atomic_store:
+          k = "store";
+          break;
+        case AtomicExpr::AO__c11_atomic_init:
+          k = "init";
+          break;
+        default:
+          break;
+        }
+        J.attribute("aop", k);
+        Expr::EvalResult R;
+        if (AE->getOrder() && AE->getOrder()->EvaluateAsInt(R, Ctx))
+          J.attribute("order", (int64_t)R.Val.getInt().getExtValue());
+        J.attribute("ptr", (int64_t)0);
       }
       if (auto *ASE = dyn_cast<ArraySubscriptExpr>(S)) {
         const Expr *B = strip(ASE->getBase());
